@@ -37,14 +37,28 @@ theorem p_score_nonneg (ref est : List Rat) (thr v : Rat) (h : Beat.pScore ref e
   unfold Beat.pScore at h
   rw [validate_bind_ok] at h
   obtain ⟨_, h⟩ := h
-  unfold pScoreCore at h
-  split at h
-  · rw [bind_ok_iff] at h
-    obtain ⟨p, _, h⟩ := h
-    simp only [pure, Except.pure, Except.ok.injEq] at h
-    subst h
-    positivity
-  · simp only [Except.ok.injEq] at h; subst h; exact le_refl _
+  simp only [pure, Except.pure, Except.ok.injEq] at h
+  subst h
+  unfold pScoreCore
+  split
+  · split
+    · exact le_refl _
+    · positivity
+  · exact le_refl _
+
+/-- The P-score is a finite value (never an exception) on every input that passes validation — in particular
+    when all reference beats fall into one 10 ms sample (the repaired `int(nan)` defect: the score is then 0). -/
+theorem p_score_defined (ref est : List Rat) (thr : Rat) (hv : validate ref est = .ok ()) :
+    Beat.pScore ref est thr = .ok (pScoreCore ref est thr) := by
+  unfold Beat.pScore
+  rw [validate_bind_ok]
+  exact ⟨hv, rfl⟩
+
+/-- no inter-annotation interval (all reference beats in one sample): the score is 0 -/
+theorem p_score_single_sample (r r' e e' : Rat) (rs es : List Rat) (thr : Rat)
+    (h : pScoreParts r (r' :: rs) e (e' :: es) thr = none) :
+    pScoreCore (r :: r' :: rs) (e :: e' :: es) thr = 0 := by
+  simp only [pScoreCore, h]
 
 /-- Both Cemgil scores are non-negative (real-number reading of the model). -/
 theorem cemgil_nonneg (ref est : List Rat) (sigma : Rat) :
@@ -110,24 +124,22 @@ theorem cemgil_best_le_one_partial (ref est : List Rat) (sigma : Rat) (h : 2 * r
     correlation sum `cnt` is at most the number of reference beats, hence `cnt / max(|est|, |ref|) ≤ 1`.
     `win` is the window the code computes (`round(thr · median inter-annotation interval)`, in 10 ms samples). -/
 theorem p_score_le_one (r r' e e' : Rat) (rs es : List Rat) (thr : Rat) (win : Int) (N cnt : Nat)
-    (h : pScoreParts r (r' :: rs) e (e' :: es) thr = .ok (win, N, cnt)) (hw : 0 ≤ win)
+    (h : pScoreParts r (r' :: rs) e (e' :: es) thr = some (win, N, cnt)) (hw : 0 ≤ win)
     (hsep : (diffs (trainSupport (e :: e' :: es) (min (minList e (e' :: es)) (minList r (r' :: rs))))).all
       (fun d => decide (2 * win < d)) = true) :
     cnt ≤ rs.length + 2 ∧
-      ∀ v, pScoreCore (r :: r' :: rs) (e :: e' :: es) thr = .ok v → 0 ≤ v ∧ v ≤ 1 := by
+      0 ≤ pScoreCore (r :: r' :: rs) (e :: e' :: es) thr ∧ pScoreCore (r :: r' :: rs) (e :: e' :: es) thr ≤ 1 := by
   have hcnt : cnt ≤ rs.length + 2 := by
     unfold pScoreParts at h
     simp only [] at h
     split at h
     · simp at h
-    · simp only [Except.ok.injEq, Prod.mk.injEq] at h
+    · simp only [Option.some.injEq, Prod.mk.injEq] at h
       obtain ⟨rfl, rfl, rfl⟩ := h
       refine le_trans (pairCount_le _ _ _ _ hw hsep) ?_
       exact le_trans (trainSupport_length_le _ _) (by simp)
   refine ⟨hcnt, ?_⟩
-  intro v hv
-  simp only [pScoreCore, h, bind, Except.bind, pure, Except.pure, Except.ok.injEq] at hv
-  subst hv
+  simp only [pScoreCore, h]
   have hm : (cnt : Rat) ≤ ((max (es.length + 2) (rs.length + 2) : Nat) : Rat) := by
     exact_mod_cast le_trans hcnt (le_max_right _ _)
   have hpos : (0 : Rat) < ((max (es.length + 2) (rs.length + 2) : Nat) : Rat) := by
@@ -154,7 +166,8 @@ example : Beat.continuity [5, 6, 7, 8] [5, 6, 7, 17 / 2] = .ok (3 / 4, 3 / 4, 3 
 example : Beat.pScore [5, 6, 7] [5, 6, 15 / 2] = .ok (2 / 3) := by decide +kernel
 example : ([5, 6] : List Rat).length ≤ ([5, 6, 7] : List Rat).length ∧
     2 * ([5, 6] : List Rat).length - 1 ≤ ([5, 6, 7] : List Rat).length := by decide
-example : pScoreParts 5 [6, 7] 5 [6, 15 / 2] (1 / 5) = .ok (20, 301, 2) := by decide +kernel
+example : pScoreParts 5 [6, 7] 5 [6, 15 / 2] (1 / 5) = some (20, 301, 2) := by decide +kernel
+example : pScoreParts 5 [5] 5 [6, 7] (1 / 5) = none ∧ Beat.pScore [5, 5] [5, 6, 7] = .ok 0 := by decide +kernel
 example : (diffs (trainSupport [5, 6, 15 / 2] 5)).all (fun d => decide (2 * 20 < d)) = true := by decide +kernel
 /-- without separation the P-score does exceed 1 (the statement's carve-out is needed) -/
 example : Beat.pScore [5, 501 / 100, 6] [5, 501 / 100, 6] = .ok (5 / 3) := by decide +kernel
